@@ -11,6 +11,7 @@ import (
 	"path/filepath"
 	"strings"
 	"testing"
+	"time"
 
 	fscopy "github.com/tonistiigi/fsutil/copy"
 	"pgregory.net/rapid"
@@ -33,6 +34,7 @@ type c14Case struct {
 	Exclude []string `json:"exclude,omitempty"`
 	Mode    *int     `json:"mode,omitempty"` // octal mode option
 	Chown   []int    `json:"chown,omitempty"`
+	Utime   int64    `json:"utime,omitempty"` // ns; 0 = option not set
 }
 
 type c14JailArg struct {
@@ -44,6 +46,7 @@ type c14JailArg struct {
 	Exclude []string `json:"exclude,omitempty"`
 	Mode    *int     `json:"mode,omitempty"`
 	Chown   []int    `json:"chown,omitempty"`
+	Utime   int64    `json:"utime,omitempty"`
 }
 
 type c14JailResult struct {
@@ -57,6 +60,10 @@ func jailCopy(raw json.RawMessage) (any, error) {
 	}
 	ci := fscopy.CopyInfo{FollowLinks: a.Follow, CopyDirContents: a.Opts.DirContents, AlwaysReplaceExistingDestPaths: a.Opts.AlwaysReplace, AllowWildcards: a.Opts.Wildcards,
 		IncludePatterns: a.Include, ExcludePatterns: a.Exclude, Mode: a.Mode}
+	if a.Utime != 0 {
+		tm := time.Unix(0, a.Utime)
+		ci.Utime = &tm
+	}
 	if a.Chown != nil {
 		uid, gid := a.Chown[0], a.Chown[1]
 		ci.Chown = func(*fscopy.User) (*fscopy.User, error) { return &fscopy.User{UID: uid, GID: gid}, nil }
@@ -190,6 +197,9 @@ func genC14(t *rapid.T) *c14Case {
 	if rapid.IntRange(0, 3).Draw(t, "chownopt") == 0 {
 		c.Chown = []int{4242, 4343}
 	}
+	if rapid.IntRange(0, 3).Draw(t, "utimeopt") == 0 {
+		c.Utime = 1234567890123456789
+	}
 	// unique, non-empty contents so bytes can be traced to their origin
 	for i := range c.Src.Nodes {
 		if n := &c.Src.Nodes[i]; n.Kind == h.KFile && n.LinkTo == "" {
@@ -255,7 +265,7 @@ func c14Check(env *h.Env, c *c14Case) error {
 		return h.Infra(err)
 	}
 	var res c14JailResult
-	if err := runJailed(jail, "copy", 0, c14JailArg{SrcArg: c.SrcArg, DstArg: c.DstArg, Follow: c.Follow, Opts: c.Opts, Include: c.Include, Exclude: c.Exclude, Mode: c.Mode, Chown: c.Chown}, &res); err != nil {
+	if err := runJailed(jail, "copy", 0, c14JailArg{SrcArg: c.SrcArg, DstArg: c.DstArg, Follow: c.Follow, Opts: c.Opts, Include: c.Include, Exclude: c.Exclude, Mode: c.Mode, Chown: c.Chown, Utime: c.Utime}, &res); err != nil {
 		var crash *helperCrash
 		if errors.As(err, &crash) {
 			return fmt.Errorf("Copy(src=%q dst=%q): the copying %v", c.SrcArg, c.DstArg, crash)
